@@ -245,10 +245,9 @@ func runWireMonitors(m *Sim, x *Exec, o monOpts) *wireFacts {
 						zcKnown[rcv] = false
 					}
 					r := rs[rcv]
-					r.base, r.haveBase = c.InitTSN-1, true
-					r.delivered = map[uint32]bool{}
-					r.haveCum = false
-					r.haveFwd = false
+					if !r.haveBase {
+						r.base, r.haveBase = c.InitTSN-1, true
+					}
 				case wDATA, wIDATA:
 					r := rs[rcv]
 					r.delivered[c.TSN] = true
